@@ -32,6 +32,7 @@ def run(ctx):
     ctx.rule('C20.R5', 'read_message: resize(header.length) only under validate Ok', floor=1)
     ctx.rule('C20.R6', 'only slice-based bincode::deserialize (no deserialize_from / from_reader on untrusted streams)', floor=2)
     ctx.rule('C20.R8', 'codec types implement both Serialize and Deserialize', floor=7)
+    ctx.rule('C20.R9', 'no allocation sized by a field of a value decoded from a file / frame without a bound test on that value', floor=1)
     for cfgname, F in ctx.F.items():
         r1(ctx, F)
         r2(ctx, F)
@@ -40,6 +41,7 @@ def run(ctx):
         r5(ctx, F)
         r6(ctx, F)
         r8(ctx, F)
+    r9(ctx)
     entries = ['protocol::FrameHeader::decode', 'protocol::FrameHeader::read_from', 'protocol::Message::decode',
                'protocol::Codec::read_message', 'run_delta', 'run_patch']
     panics.run_entries(ctx, 'C20.R7', entries, 'no undischarged crate-local panic reachable from the decoders / copia delta|patch; asserting constructors get validated values')
@@ -394,3 +396,74 @@ def r8(ctx, F):
             if ty not in F.adts:
                 ctx.missing('C20.R8', 'type %s' % ty)
             ctx.check(ser and de, 'C20.R8', ty, 'Serialize + Deserialize', '%s does not implement both Serialize and Deserialize (%s)' % (ty, sorted(tr)), None)
+
+
+ALLOC_SIZED = {
+    'std::vec::Vec::<T>::with_capacity': 0, 'std::vec::Vec::<T, A>::with_capacity_in': 0, 'std::vec::from_elem': 1,
+    'std::vec::Vec::<T, A>::resize': 1, 'std::vec::Vec::<T, A>::reserve': 1, 'std::vec::Vec::<T, A>::reserve_exact': 1,
+    'std::string::String::with_capacity': 0, 'std::collections::HashMap::<K, V>::with_capacity': 0,
+    'std::collections::VecDeque::<T>::with_capacity': 0, 'bytes::BytesMut::with_capacity': 0,
+}
+DECODERS = ('bincode::deserialize', 'bincode::deserialize_from', 'ciborium::from_reader', 'serde_json::from_slice', 'serde_json::from_reader',
+            'protocol::FrameHeader::decode', 'protocol::FrameHeader::read_from', 'protocol::Message::decode')
+
+
+def r9(ctx):
+    """ALLOC: in every body of both crates, an allocation whose size operand derives from a field of a decoded value
+    (bincode / ciborium / serde_json / the frame-header decoder) must be edge-guarded by a comparison of that same value."""
+    n_sites = 0
+    for cfgname, F in ctx.F.items():
+        for body in F.bodies.values():
+            if 'generated_contracts' in body.file:
+                continue
+            fl = flow_of(body)
+            decs = {cb for cb, ct in fl.calls(lambda c: c in DECODERS)}
+            if not decs:
+                continue
+            for ab, at in fl.calls(lambda c: c in ALLOC_SIZED):
+                CONV = ('std::convert::TryFrom::try_from', 'std::convert::TryInto::try_into', 'std::convert::Into::into', 'std::convert::From::from',
+                        'std::cmp::Ord::min', 'std::cmp::min')
+                so, work, seen_ = set(), [at['args'][ALLOC_SIZED[callee(at)]]], set()
+                while work:
+                    for o in fl.origins(work.pop()):
+                        k_ = (o.kind, o.key, o.bb)
+                        if k_ in seen_:
+                            continue
+                        seen_.add(k_)
+                        if o.kind == 'call' and o.key in CONV[4:] and any(a_['k'] == 'const' for a_ in body.blocks[o.bb]['term']['args']):
+                            continue      # min(x, CONST): bounded by construction
+                        if o.kind == 'call' and o.key in CONV[:4]:
+                            work.extend(body.blocks[o.bb]['term']['args'][:1])     # numeric conversions keep the value
+                        else:
+                            so.add(o)
+                tainted = [o for o in so if o.kind == 'call' and o.bb in decs]
+                if not tainted:
+                    continue
+                n_sites += 1
+                ssig = {(o.kind, o.key, o.bb, tuple(o.path)) for o in tainted}
+                guarded = False
+                for bi in fl.cfg.reachable():
+                    for st in body.blocks[bi]['stmts']:
+                        rv = st['rv']
+                        if rv['k'] == 'bin' and rv['op'] in ('Lt', 'Le', 'Gt', 'Ge') and not st['dst']['proj']:
+                            for op_ in rv['ops']:
+                                if {(o.kind, o.key, o.bb, tuple(o.path)) for o in fl.origins(op_)} & ssig:
+                                    oc = fl.outcomes(None, st['dst']['l'])
+                                    if any(es and fl.cfg.edges_guard(es, ab) for es in oc.values()):
+                                        guarded = True
+                # a validator call on the same value whose Ok edge guards the allocation (FrameHeader::validate, Delta::validate ...)
+                for vb, vt in fl.calls(lambda c: c.split('::')[-1].startswith('validate')):
+                    if fl.guarded_by(ab, vb, 'Ok'):
+                        # the validated value is the size itself or an object that contains it (access path is a prefix)
+                        for a_ in vt['args']:
+                            for o in fl.origins(a_):
+                                for (k, key, bb, pth) in ssig:
+                                    if (o.kind, o.key, o.bb) == (k, key, bb) and tuple(o.path) == tuple(pth)[:len(o.path)]:
+                                        guarded = True
+                top = body.path.split('::{')[0]
+                ctx.check(guarded, 'C20.R9', '%s:%s(%s)' % (top, callee(at).split('::')[-1], '.'.join(sorted({'.'.join(o.path) for o in tainted}))[:40]),
+                          'allocation size compared with a bound before use',
+                          '%s reserves memory sized by a field of a decoded (untrusted) value without testing it against a bound: a crafted file / frame '
+                          'makes the process abort on allocation failure or capacity overflow' % top, term_loc(body, ab))
+    if n_sites == 0:
+        ctx.missing('C20.R9', 'an allocation sized from a decoded value (read_message resize)')
